@@ -201,6 +201,32 @@ def gen(tier, seed, prop):
                 rid = f"p{n}"
                 recs.append(one(rid, fname, A, B, lift, prop))
                 meta[rid] = {"fn": fname, "A": A.describe(), "B": B.describe(), "lift": [lift[0], lift[1].tolist(), lift[2].tolist()]}
+    # systematic family (independent of the seed): exactly parallel and antiparallel line-like pairs in every overlap class of
+    # their projections (disjoint on either side, touching ends, partial overlap on either side, containment, equal), with and
+    # without a perpendicular offset - the arrangements in which the parallel branch of the segment routines decides alone
+    dirs = ([1, 0, 0], [0, 1, 1], [1, 2, 2])
+    fam = []
+    for d in dirs:
+        d = np.array(d)
+        u, _ = PR.ortho_int(d)
+        for off in (0, 1):
+            for sgn in (1, -1):
+                for (a0, a1), (b0, b1) in (((0, 3), (5, 7)), ((5, 7), (0, 3)), ((0, 3), (3, 6)), ((0, 4), (2, 7)), ((2, 7), (0, 4)),
+                                           ((0, 6), (2, 4)), ((2, 4), (0, 6)), ((0, 3), (0, 3)), ((4, 1), (0, 2)), ((0, 2), (4, 1))):
+                    pa, pb = [int(x) for x in a0 * d], [int(x) for x in a1 * d]
+                    qa, qb = (b0 * d + off * u, b1 * d + off * u) if sgn == 1 else (b1 * d + off * u, b0 * d + off * u)
+                    fam.append((pa, pb, [int(x) for x in qa], [int(x) for x in qb], [int(x) for x in sgn * d]))
+    for fname, mk in (("line_segment_to_line_segment", lambda f: (PR.Prim("line_segment", a=f[0], b=f[1]), PR.Prim("line_segment", a=f[2], b=f[3]))),
+                      ("line_to_line_segment", lambda f: (PR.Prim("line", x=f[0], d=[f[1][i] - f[0][i] for i in range(3)]), PR.Prim("line_segment", a=f[2], b=f[3]))),
+                      ("line_to_line", lambda f: (PR.Prim("line", x=f[0], d=[f[1][i] - f[0][i] for i in range(3)]), PR.Prim("line", x=f[2], d=f[4])))):
+        for f in fam:
+            A, B = mk(f)
+            for lk in ("id", "rigid1"):
+                lift = prim_lift(rng, A, B, lk)
+                n += 1
+                rid = f"p{n}"
+                recs.append(one(rid, fname, A, B, lift, prop))
+                meta[rid] = {"fn": fname, "A": A.describe(), "B": B.describe(), "lift": [lift[0], lift[1].tolist(), lift[2].tolist()], "family": "parallel"}
     # pinned inputs of the known findings (deterministic, independent of the seed)
     import json, os
     pinned = [("disk_to_disk", PR.Prim("disk", c=[-5, -1, 0], r=3, n=[-1, 1, 1]), PR.Prim("disk", c=[-6, -1, 3], r=3, n=[1, -1, 0]), NW.IDENT)]
